@@ -918,7 +918,7 @@ fn gen_fn(ctx: &mut Ctx, fs_: &FnSpec) -> R<()> {
             c2.place = "fn".into();
             all_clauses.push(c2);
         }
-        if std::env::var("TCSS_VACUITY").is_ok() && fs_.clauses.iter().any(|c| c.kind == "ensures") {
+        if std::env::var("TCSS_VACUITY").is_ok() && fs_.clauses.iter().any(|c| c.kind == "ensures") && !fs_.opts.iter().any(|o| o == "vacuity_start") {
             // vacuity twin (DESIGN.md 8): a function that proves `false` has contradictory preconditions / assumptions
             all_clauses.push(Clause { kind: "ensures".into(), id: "vacuity.false".into(), tags: vec![], text: "false".into(), place: "fn".into() });
         }
@@ -1108,7 +1108,9 @@ fn gen_fn(ctx: &mut Ctx, fs_: &FnSpec) -> R<()> {
     }
     // proof blocks
     let mut proofs_all: Vec<(String, Clause)> = fs_.proofs.clone();
-    if std::env::var("TCSS_VACUITY").is_ok() && !fs_.clauses.iter().any(|c| c.kind == "ensures") {
+    // (also: functions marked `vacuity_start` in the sidecar - those that OTHER extracted functions of the unit call: an `ensures false`
+    // twin of a callee would be assumed by its callers and make THEM prove false)
+    if std::env::var("TCSS_VACUITY").is_ok() && (!fs_.clauses.iter().any(|c| c.kind == "ensures") || fs_.opts.iter().any(|o| o == "vacuity_start")) {
         // functions whose contract comes from a trait: their (trait-level) precondition must be satisfiable,
         // i.e. `assert(false)` at the start of the body must FAIL
         proofs_all.push(("start".to_string(), Clause { kind: "proof".into(), id: "vacuity.false".into(), tags: vec![], text: "{ assert(false); }".into(), place: String::new() }));
